@@ -61,7 +61,7 @@ func init() {
 		Run:   runR1710,
 	})
 	core.Register(&core.Rule{
-		ID: "R10.8", Generated: true,
+		ID: "R10.8", Generated: true, GeneratedRoot: true,
 		Title: "nested hashers hash into the hash they are given",
 		Text: "In every generated package: a function literal with a parameter of type fnv1a.Hash (the per-entry hasher handed to fnv1a.AddMap / AddArray) passes that parameter — never a Hash captured from outside the literal — to every fnv1a call in its body. " +
 			"AddMap hashes each entry into its own sub-hash and combines the sub-hashes in key order; a body that writes to the enclosing hash mixes the values in in map iteration order, so the hash of a record with a map of collections changes between calls.",
@@ -79,7 +79,7 @@ func init() {
 		Run:   runR129,
 	})
 	core.Register(&core.Rule{
-		ID: "R13.4", Generated: true,
+		ID: "R13.4", Generated: true, GeneratedRoot: true,
 		Title: "a record-typed default is built by the nested record's own decoder",
 		Text: "In every generated populateLocalDefaultValues: where a field whose type is a generated record (or union) is given its default by allocating an instance, the same guarded block decodes the schema literal into it " +
 			"(<field>.UnmarshalRestLi) or asks it to populate its defaults — never a bare allocation: the nested type's own defaulted fields are filled in by its decoder, so `{}` as a default means \"all of the nested defaults\", not a zero struct.",
